@@ -1124,6 +1124,9 @@ class TaskJobManager:
                 ctx, self.workflow, itask.point, itask.tdef.name
             )
         if ctx.ret_code == SubProcPool.RET_CODE_WORKFLOW_STOPPING:
+            # Not submitted (the workflow is stopping): the task is back to
+            # awaiting job preparation, no job submission is under way.
+            itask.waiting_on_job_prep = True
             return
 
         try:
